@@ -473,4 +473,172 @@ def castW (castCls : Cls) (w : World) (self : Self) (ty : Nat) : World × Outcom
   | (w2, .raised e) => (w2, .raised e)
   | (w2, .ub) => (w2, .ub)
 
+/-! ### the raw storage of a run-time type object; `Type_New` word by word; life cycle
+
+  A type object made by `new(Type, …)` / `alloc(Type)` is `CELLO_NBUILTINS + CELLO_MAX_INSTANCES + 1` cells of three words
+  (`struct Type { var cls; var name; var inst; }`).  The first `CELLO_CACHE_NUM` words are the cache words, cell
+  `CELLO_CACHE_NUM/3` is `__Name`, the next `__Size`, the instance triples start at cell `CELLO_NBUILTINS` and end with
+  the first cell whose `name` word is NULL.  `Type_New` (the `construct_with` member of `Type`'s `New` instance) writes
+  into whatever storage it is given: calloc'ed memory from `Type_Alloc`, caller-provided storage, or — after
+  `destruct(T); construct(T, …)` — the previous incarnation of the same type object with its warmed cache words,
+  memoised class pointers and old triples.  `Type` has no destructor (`Instance(New, Type_New, NULL)`): `destruct` leaves
+  every word as it is. -/
+
+/-- one word of the storage -/
+inductive Word where
+  | null
+  | cls (c : Cls)          -- a class pointer (memoised `cls` word of a triple)
+  | str (s : String)       -- a `char*`
+  | inst (i : Inst)        -- an instance pointer
+  | num (n : Nat)          -- `(var)(uintptr_t)size`
+deriving DecidableEq, Repr, Inhabited
+
+/-- the layout constants of src/Type.c / include/Cello.h -/
+structure Layout where
+  cacheNum : Nat           -- CELLO_CACHE_NUM
+  nBuiltins : Nat          -- CELLO_NBUILTINS
+  maxInstances : Nat       -- CELLO_MAX_INSTANCES
+deriving DecidableEq, Repr, Inhabited
+
+/-- number of cells `Type_Alloc` reserves: `CELLO_NBUILTINS + CELLO_MAX_INSTANCES + 1` -/
+def Layout.cells (L : Layout) : Nat := L.nBuiltins + L.maxInstances + 1
+
+/-- `t[k] = (struct Type){ a, b, c };` — three word stores -/
+def writeCell (mem : List Word) (k : Nat) (a b c : Word) : List Word :=
+  ((mem.set (3 * k) a).set (3 * k + 1) b).set (3 * k + 2) c
+
+/-- `for (i = from; i < from + cnt; i++) { t[i] = (struct Type){ NULL, NULL, NULL }; }` -/
+def clearCells : Nat → Nat → List Word → List Word
+  | _, 0, mem => mem
+  | i, cnt + 1, mem => clearCells (i + 1) cnt (writeCell mem i .null .null .null)
+
+/-- `for (i = 2; i < len(args); i++) { t[CELLO_NBUILTINS-2+i] = (struct Type){ NULL, c_str(type_of(ins)), ins }; }` (`j = i-2`) -/
+def writeInsts (nb : Nat) : Nat → List (String × Inst) → List Word → List Word
+  | _, [], mem => mem
+  | j, (nm, ins) :: rest, mem => writeInsts nb (j + 1) rest (writeCell mem (nb + j) .null (.str nm) (.inst ins))
+
+/-- **`Type_New(self, args)`** on storage `mem` with ANY previous contents: OutOfMemoryError above CELLO_MAX_INSTANCES
+    before anything is written; otherwise, in this order: the `CELLO_CACHE_NUM/3` cache cells := NULL triples, cell
+    `cache_entries` := `__Name`, cell `cache_entries+1` := `__Size`, one triple per instance from cell `CELLO_NBUILTINS`
+    with a NULL `cls` word, then the NULL terminator triple.  Nothing else is written.  `ub`: a store outside the storage. -/
+def typeNewRaw (L : Layout) (mem : List Word) (name : String) (size : Nat) (es : List (String × Inst)) :
+    List Word × Outcome Unit :=
+  if es.length > L.maxInstances then (mem, .raised .OutOfMemoryError)
+  else if mem.length < 3 * (L.nBuiltins + es.length + 1) || mem.length < 3 * (L.cacheNum / 3 + 2) then (mem, .ub)
+  else
+    let ce := L.cacheNum / 3
+    let m1 := clearCells 0 ce mem
+    let m2 := writeCell m1 ce .null (.str "__Name") (.str name)
+    let m3 := writeCell m2 (ce + 1) .null (.str "__Size") (.num size)
+    let m4 := writeInsts L.nBuiltins 0 es m3
+    (writeCell m4 (L.nBuiltins + es.length) .null .null .null, .ok ())
+
+/-- the whole storage of a run-time type object: the record the lookups work on, the `__Name`/`__Size` cells, and the
+    words after the terminator triple that no lookup ever reads (remains of earlier, longer incarnations) -/
+structure Store where
+  trec : TypeRec
+  name : String
+  size : Nat
+  rest : List Word
+deriving DecidableEq, Repr, Inhabited
+
+def Word.ofInst : Option Inst → Word
+  | none => .null
+  | some i => .inst i
+
+def Word.ofCls : Option Cls → Word
+  | none => .null
+  | some c => .cls c
+
+def Entry.words (e : Entry) : List Word := [Word.ofCls e.memo, .str e.name, .inst e.inst]
+
+/-- the words of a type object in storage order -/
+def Store.toRaw (s : Store) : List Word :=
+  s.trec.cache.map Word.ofInst ++ ([.null, .str "__Name", .str s.name, .null, .str "__Size", .num s.size] ++
+    (s.trec.entries.flatMap Entry.words ++ ([.null, .null, .null] ++ s.rest)))
+
+/-- cache words as the lookups read them: NULL or an instance pointer (anything else has no reading) -/
+def viewCache : List Word → Option (List (Option Inst))
+  | [] => some []
+  | .null :: ws => (viewCache ws).map (none :: ·)
+  | .inst i :: ws => (viewCache ws).map (some i :: ·)
+  | _ :: _ => none
+
+/-- the triples as `Type_Scan` walks them: until the first cell whose `name` word is NULL; also what follows that cell -/
+def viewEntries : List Word → Option (List Entry × List Word)
+  | .null :: .null :: .null :: rest => some ([], rest)
+  | .null :: .str nm :: .inst i :: rest => (viewEntries rest).map (fun r => (⟨none, nm, i⟩ :: r.1, r.2))
+  | .cls c :: .str nm :: .inst i :: rest => (viewEntries rest).map (fun r => (⟨some c, nm, i⟩ :: r.1, r.2))
+  | _ => none
+
+/-- read a storage back as a type object, with the indices the C code uses: cache word `i` is `((var*)self)[i]`,
+    the name is `t[CELLO_CACHE_NUM/3].inst`, the size `t[CELLO_CACHE_NUM/3+1].inst`, the triples start at cell
+    `CELLO_NBUILTINS`.  `none`: the storage is not a well-formed type object. -/
+def Store.ofRaw (L : Layout) (hdr sentinel : Bool) (mem : List Word) : Option Store :=
+  let ce := L.cacheNum / 3
+  match viewCache (mem.take L.cacheNum), mem[3 * ce + 2]?, mem[3 * (ce + 1) + 2]?, viewEntries (mem.drop (3 * L.nBuiltins)) with
+  | some cache, some (.str name), some (.num size), some (es, rest) =>
+    some { trec := { hdr := hdr, sentinel := sentinel, cache := cache, entries := es }, name := name, size := size, rest := rest }
+  | _, _, _, _ => none
+
+/-- `construct_with(self, args)` on a storage with any contents (`self`'s header already names `Type`) -/
+def constructAt (L : Layout) (hdr sentinel : Bool) (mem : List Word) (name : String) (size : Nat)
+    (es : List (String × Inst)) : Option Store × Outcome Unit :=
+  let r := typeNewRaw L mem name size es
+  match r.2 with
+  | .ok _ => (Store.ofRaw L hdr sentinel r.1, .ok ())
+  | .raised e => (none, .raised e)
+  | .ub => (none, .ub)
+
+/-- `destruct(T); construct(T, name, size, instances…)` IN PLACE: `destruct` finds no destructor and changes nothing,
+    `Type_New` then runs on the words of the previous incarnation.  A refused construction leaves the object as it was. -/
+def constructIn (L : Layout) (s : Store) (name : String) (size : Nat) (es : List (String × Inst)) : Store × Outcome Unit :=
+  match constructAt L s.trec.hdr s.trec.sentinel s.toRaw name size es with
+  | (some s', .ok _) => (s', .ok ())
+  | (none, .ok _) => (s, .ub)
+  | (_, .raised e) => (s, .raised e)
+  | (_, .ub) => (s, .ub)
+
+/-- what an instance list declares: for a class name, the instance of the first argument of that class -/
+def declOf (es : List (String × Inst)) : String → Option Inst :=
+  fun nm => (es.find? (fun p => p.1 = nm)).map (·.2)
+
+/-- life-cycle histories of one type object: lookups (and white-box resets) interleaved with re-constructions in place -/
+inductive LOp where
+  | look (op : Op)
+  | construct (name : String) (size : Nat) (es : List (String × Inst))
+deriving DecidableEq, Repr, Inhabited
+
+inductive LObs where
+  | look (o : Obs)
+  | constructed (r : Outcome Unit)
+deriving DecidableEq, Repr, Inhabited
+
+def applyLife (L : Layout) (slots : List (Nat × Cls)) (s : Store) : LOp → Store × LObs
+  | .look op => let r := applyOp slots s.trec op; ({ s with trec := r.1 }, .look r.2)
+  | .construct name size es => let r := constructIn L s name size es; (r.1, .constructed r.2)
+
+def runLife (L : Layout) (slots : List (Nat × Cls)) : Store → List LOp → Store × List LObs
+  | s, [] => (s, [])
+  | s, op :: ops =>
+    let r := applyLife L slots s op
+    let rs := runLife L slots r.1 ops
+    (rs.1, r.2 :: rs.2)
+
+/-- **Spec of a life-cycle history**: every lookup answers from the declaration currently in force — the instance list of
+    the last successful construction — and a construction succeeds exactly when it has at most CELLO_MAX_INSTANCES instances -/
+def specLife (maxInstances : Nat) (sent : Bool) : (String → Option Inst) → List LOp → List LObs
+  | _, [] => []
+  | D, .look op :: ops => .look (specObs sent D op) :: specLife maxInstances sent D ops
+  | D, .construct _ _ es :: ops =>
+    if es.length > maxInstances then .constructed (.raised .OutOfMemoryError) :: specLife maxInstances sent D ops
+    else .constructed (.ok ()) :: specLife maxInstances sent (declOf es) ops
+
+/-- the declaration in force after a history -/
+def declAfter (maxInstances : Nat) : (String → Option Inst) → List LOp → (String → Option Inst)
+  | D, [] => D
+  | D, .look _ :: ops => declAfter maxInstances D ops
+  | D, .construct _ _ es :: ops => if es.length > maxInstances then declAfter maxInstances D ops else declAfter maxInstances (declOf es) ops
+
+
 end Cello.Dispatch
